@@ -376,7 +376,8 @@ func (p *parser) parseLabelPredicate() (pred LabelPredicate, _ error) {
 
 	var binOp BinOp
 	switch nextTok := p.next(); nextTok.Type {
-	case lexer.Ident:
+	case lexer.Ident, lexer.OpenParen:
+		// Juxtaposed predicate, possibly parenthesized: `a="b" (c="d" or e="f")`.
 		p.unread()
 		binOp = OpAnd
 	case lexer.Comma, lexer.And:
